@@ -22,6 +22,27 @@ type rangeLoop struct {
 // forwardRange: the IndexAddr's index is the canonical range counter (phi[-1, next]; next = phi + 1;
 // next < len(slice)), i.e. elements are visited first to last, each once.
 func forwardRange(ia *ssa.IndexAddr) (bool, string) {
+	// the explicit form: for i := 0; i < len(s); i++ { … s[i] … } — the index is phi[0, phi+1] at the loop head
+	if ph, isPhi := ia.Index.(*ssa.Phi); isPhi {
+		startOK, stepOK := false, false
+		for _, e := range ph.Edges {
+			if k, isK := constInt(e); isK && k == 0 {
+				startOK = true
+			} else if inc, isB := e.(*ssa.BinOp); isB && inc.Op == token.ADD && inc.X == ssa.Value(ph) {
+				if one, isC := constInt(inc.Y); isC && one == 1 {
+					stepOK = true
+				} else {
+					return false, "index does not advance by one"
+				}
+			} else {
+				return false, "index has another source " + descDepth(e, 2)
+			}
+		}
+		if startOK && stepOK {
+			return true, ""
+		}
+		return false, "index does not start at the first element and step forward"
+	}
 	bo, ok := ia.Index.(*ssa.BinOp)
 	if !ok || bo.Op != token.ADD {
 		return false, "index is not the range counter"
@@ -332,24 +353,32 @@ func checkC08(c *Check) {
 				allowG := P.SSA[pkgServer].Var("allow")
 				okDef := len(rets) >= 2
 				sawDeny, sawAllow := false, false
+				if len(rets) == 1 {
+					okDef = true // the two outcomes may be chosen in branches and returned after a join
+				}
 				for _, r := range rets {
-					v := resolveCell(stripConv(r.Results[0]))
-					switch {
-					case isLoadOfGlobal(v, allowG):
-						ok, _ := allowReturnJustified(P, R, fn, FactsOf(fn).At(r))
-						if !ok {
-							okDef = false
-						}
-						sawAllow = true
-					default:
-						dc, _, isC := asCall(v)
-						if isC && len(dc.Common().Args) >= 1 && isServerDenyCall(P, dc) {
-							if k, isK := constInt(dc.Common().Args[0]); isK && k == 7 {
-								sawDeny = true
-								continue
+					for _, a := range phiAlternatives(fn, r.Results[0], r) {
+						afs := unionFacts(FactsOf(fn).At(r), a.Facts)
+						for _, lv := range Leaves(a.V, leafOpts{}) {
+							v := resolveCell(stripConv(lv))
+							switch {
+							case isLoadOfGlobal(v, allowG):
+								ok, _ := allowReturnJustified(P, R, fn, afs)
+								if !ok {
+									okDef = false
+								}
+								sawAllow = true
+							default:
+								dc, _, isC := asCall(v)
+								if isC && len(dc.Common().Args) >= 1 && isServerDenyCall(P, dc) {
+									if k, isK := constInt(dc.Common().Args[0]); isK && k == 7 {
+										sawDeny = true
+										continue
+									}
+								}
+								okDef = false
 							}
 						}
-						okDef = false
 					}
 				}
 				c.Obl(okDef && sawDeny && sawAllow, "C08.R4", "default-deny", P.Pos(fn.Pos()), "no chain matched ⇒ PermissionDenied unless AllowUnmatchedRequests",
